@@ -311,6 +311,29 @@ public:
       J.attribute("frec", recName(MD->getParent()));
       if (MD->isVirtual()) J.attribute("fvirt", true);
       if (MD->isStatic()) J.attribute("fstatic", true);
+      if (MD->isConst()) J.attribute("fconst", true);
+    }
+    // parameters through which the callee may write: pointer / reference to non-const
+    {
+      bool any = false;
+      for (const ParmVarDecl *P : FD->parameters()) {
+        QualType T = P->getType();
+        if ((T->isPointerType() || T->isReferenceType()) && !T->getPointeeType().isConstQualified() &&
+            !T->getPointeeType()->isFunctionType()) { any = true; break; }
+      }
+      if (any) {
+        J.attributeArray("pw", [&] {
+          unsigned i = 0;
+          for (const ParmVarDecl *P : FD->parameters()) {
+            QualType T = P->getType();
+            if ((T->isPointerType() || T->isReferenceType()) && !T->getPointeeType().isConstQualified() &&
+                !T->getPointeeType()->isFunctionType())
+              J.value((int64_t)i);
+            ++i;
+          }
+        });
+      }
+      if (FD->isVariadic()) J.attribute("variadic", true);
     }
     if (const TemplateArgumentList *TAL = FD->getTemplateSpecializationArgs()) emitTemplateArgs(TAL);
     if (!underRoot(FD->getLocation())) J.attribute("ext", true);
